@@ -36,6 +36,9 @@ def units(ctx):
            for c in runner.contracts()]
     us += [contract_unit(c, world_setup=runner.setup_choose)
            for c in runner.choose_contracts(ctx.tier)]
+    from contracts import yaqltypes as _yt
+    us += [contract_unit(c, world_setup=_yt.setup)
+           for c in _yt.contracts() if 'C06' in c.serves]
     return us
 
 
